@@ -534,4 +534,21 @@ def cycle (cfg : Config) (srv : Server) (shipped : Option Root) (st : St) : Exce
         | (.error e, st) => (.error e, st)
         | (.ok tgt, st) => (.ok ⟨root, ts, snap, tgt⟩, st)
 
+/-! ### Reading a target from a loaded repository: the expiration gate -/
+
+/-- `expires_iter.iter().min_by_key(..)`: the earliest of root, timestamp, snapshot, targets (the
+first one in that order when several are equally early) -/
+def View.earliest (v : View) : Int × RoleType :=
+  let cands : List (Int × RoleType) :=
+    [(v.root.expires, .root), (v.ts.expires, .timestamp), (v.snap.expires, .snapshot), ((Tgt.doc v.tgt).expires, .targets)]
+  cands.foldl (fun best c => if c.1 < best.1 then c else best) (v.root.expires, .root)
+
+/-- the check at the start of `read_target` (hence of `save_target` and `cache`) -/
+def readGate (cfg : Config) (v : View) (st : St) : Except Err Unit × St :=
+  if cfg.safe then
+    match systemTime cfg st with
+    | (.error e, st) => (.error e, st)
+    | (.ok t, st) => if t < v.earliest.1 then (.ok (), st) else (.error (.expired v.earliest.2), st)
+  else (.ok (), st)
+
 end Tough.Client
